@@ -3,9 +3,9 @@ package main
 // Verification units: one function (or one function x one source kind) verified against its contract.
 
 import (
-	"go/parser"
 	"fmt"
 	"go/ast"
+	"go/parser"
 	"go/token"
 	"go/types"
 	"os"
@@ -797,7 +797,6 @@ func impPremise(cl Clause, cs *Contracts) ([]Clause, bool) {
 	return out, true
 }
 
-
 // "opt holds-callbacks": the function neither calls nor passes on its function-typed parameters; it only stores them (as
 // the value of a composite-literal field or the right-hand side of an assignment).  Checked syntactically on the body.
 func (u *Unit) checkHoldsCallbacks(env *Env) {
@@ -842,7 +841,6 @@ func (u *Unit) checkHoldsCallbacks(env *Env) {
 		u.assert(env, "holds-callbacks/"+p.Name(), "capture", u.FI.Decl.Pos(), "the function-typed parameter "+p.Name()+" is only stored, never called or passed on", boolTerm(okAll))
 	}
 }
-
 
 // "globalinit <Var>: <spec>": the initializer expression of the package variable <Var> (var X = e) is evaluated and <spec> is
 // proved of its value, with <Var> naming that value.  This is how a well-formedness fact that the functions of a block ASSUME
